@@ -10,7 +10,7 @@ SMAX = {'quick': 8, 'thorough': 1 << 10}
 SIG = 'const int N, const int a, const int b, const int c, const int s, int *out'
 
 # operand expression shapes, one per C precedence class that may legally appear in a header
-EXPRS = ['0', '3', 'N', 'a + b', 'a - b', 'N >> 1', 'a * 2', 'a & b', 'a | 1', 'c ? a : b', '-a', 'a % 4', '(a < b)', 'N - 1', 'a ^ b', 'b << 1']
+EXPRS = ['0', '3', 'N', 'a + b', 'a - b', 'N >> 1', 'a * 2', 'a & b', 'a | 1', 'c ? a : b', '-a', 'a % 4', '(a < b)', 'N - 1', 'a ^ b', '(b & 15) << 1']
 STEPS_POS = ['++{i}', '{i}++', '{i} += 2', '{i} += 3', '{i} += s', '{i} += s + 1']
 STEPS_NEG = ['--{i}', '{i}--', '{i} -= 2', '{i} -= 3', '{i} -= s', '{i} -= s + 1']
 TYPES = ['int', 'long', 'unsigned int']
@@ -127,14 +127,16 @@ def run(ctx):
     known = dict(C.load_known('C17'))
     base = {p.name for p in progs[:48]}
     def modes_of(p, cnt=[0]):
-        # thorough: every program on all seven backends.  quick: the 48 plain headers and the nests on all seven,
-        # operand-shape programs on one loop-keeping backend and two launch-model backends (rotating)
-        if thorough or p.name in base:
+        # thorough: every program on all seven backends.  quick: the 48 plain headers on Serial, CUDA, OpenCL and one more
+        # (rotating); operand-shape programs on one launch-model backend (rotating) plus, for every third, a loop-keeping one
+        if thorough:
             return modes
         if getattr(p, 'nest_modes', None):
             return p.nest_modes
         cnt[0] += 1; k = cnt[0]
-        return [('Serial', 'OpenMP')[k % 2], O.LAUNCH_MODES[k % 5], O.LAUNCH_MODES[(k + 2) % 5]]
+        if p.name in base:
+            return ['Serial', 'CUDA', 'OpenCL', ('OpenMP', 'HIP', 'Metal', 'dpcpp')[k % 4]]
+        return [O.LAUNCH_MODES[k % 5]] + ([('Serial', 'OpenMP')[k % 2]] if k % 3 == 0 else [])
     wv = [dict(N=3, a=1, b=1, c=1, s=1), dict(N=1, a=3, b=1, c=1, s=1), dict(N=0, a=0, b=0, c=0, s=1), dict(N=2, a=1, b=2, c=1, s=2),
           dict(N=1, a=2, b=1, c=2, s=1), dict(N=4, a=2, b=1, c=0, s=1), dict(N=2, a=0, b=3, c=2, s=2), dict(N=-1, a=-2, b=-1, c=1, s=1)]
     qs, rejected = O.make_queries(ctx, progs, modes, O.visit_harness, known_keys=list(known), timeout=300 if thorough else 120, witness_vectors=wv, modes_of=modes_of)
